@@ -43,9 +43,11 @@ def build_worker(variant="committed"):
     os.makedirs(BIN, exist_ok=True)
     h = os.path.join(VERIF, "harness")
     shutil.copyfile(os.path.join(REPO, "go.sum"), os.path.join(h, "go.sum"))
-    if REPO != "/repo":        # scratch copy of the repository (seed matrix runs): point the replace directives at it
-        gm = open(os.path.join(h, "go.mod")).read()
-        gm = re.sub(r"=> \S*?(/third_party/simplexer)?\n", lambda m: "=> " + REPO + (m.group(1) or "") + "\n", gm)
+    # the replace directives point at the repository under check (/repo, or a scratch copy in seed-matrix runs); they are re-pointed on
+    # every build, so a tree that was once used against a scratch copy checks /repo again afterwards
+    gm0 = open(os.path.join(h, "go.mod")).read()
+    gm = re.sub(r"=> \S*?(/third_party/simplexer)?\n", lambda m: "=> " + REPO + (m.group(1) or "") + "\n", gm0)
+    if gm != gm0:
         open(os.path.join(h, "go.mod"), "w").write(gm)
     out = os.path.join(BIN, {"committed": "pvworker", "regen": "pvworker-regen", "hooked": "pvworker-hooked"}[variant])
     cmd = ["go", "build", "-tags", "verif", "-o", out]
